@@ -59,7 +59,13 @@ __CPROVER_ensures(!OLD(conn->closed) ==> (conn->sock != NULL ? (g_sclose_calls =
 #define U_P2    (U_P1 + U_L(1))
 #define U_TOT   (U_P2 + U_L(2))
 #define U_PJ(j) ((j) == 0 ? (size_t) 0 : (j) == 1 ? U_P1 : (j) == 2 ? U_P2 : U_TOT)
+#if HC_NIO_CAP >= 3
 #define U_LOC(k) ((k) < U_P1 ? U_B(0) + (k) : (k) < U_P2 ? U_B(1) + ((k) - U_P1) : U_B(2) + ((k) - U_P2))
+#elif HC_NIO_CAP == 2
+#define U_LOC(k) ((k) < U_P1 ? U_B(0) + (k) : U_B(1) + ((k) - U_P1))
+#else
+#define U_LOC(k) (U_B(0) + (k))
+#endif
 #define U_DROP(n) (((n) == 0 || (n) < U_P1) ? 0u : ((n) == U_P1 || (n) < U_P2) ? VP_MIN(1u, U_NIO) : ((n) == U_P2 || (n) < U_TOT) ? VP_MIN(2u, U_NIO) : U_NIO)
 #define HC_C    VP_MIN(HC_AV, U_TOT) /* bytes that must be handed over */
 #define HC_LPRE(a, i) ((i) < (a)->a_nio ? (a)->a_iov[i].iov_len : (size_t) 0)
@@ -112,12 +118,14 @@ __CPROVER_assigns(conn->rd_get, conn->rd_put, conn->rd_discard, conn->buffered, 
 __CPROVER_assigns(__CPROVER_object_whole(conn->buf))
 __CPROVER_assigns(aio->a_count, aio->a_nio, __CPROVER_object_upto(&aio->a_iov[0], sizeof(aio->a_iov)), HC_IOV_OF(conn->rd_aio))
 __CPROVER_assigns(HC_IO_GHOSTS, HC_PARSE_GHOSTS, HC_STATUS_GHOSTS)
+#ifndef HC_BUFFERS_OPAQUE
 __CPROVER_assigns(conn->rd_flavor <= HTTP_RD_FULL && 0 < aio->a_nio && aio->a_iov[0].iov_len > 0: __CPROVER_object_whole(aio->a_iov[0].iov_buf))
 #if HC_NIO_CAP >= 2
 __CPROVER_assigns(conn->rd_flavor <= HTTP_RD_FULL && 1 < aio->a_nio && aio->a_iov[1].iov_len > 0: __CPROVER_object_whole(aio->a_iov[1].iov_buf))
 #endif
 #if HC_NIO_CAP >= 3
 __CPROVER_assigns(conn->rd_flavor <= HTTP_RD_FULL && 2 < aio->a_nio && aio->a_iov[2].iov_len > 0: __CPROVER_object_whole(aio->a_iov[2].iov_buf))
+#endif
 #endif
 /* ---- COMMON clauses (every flavour; these are what http_rd_start relies on) */
 __CPROVER_ensures(HC_WIN_OK(conn))
@@ -129,7 +137,9 @@ __CPROVER_ensures((RV == NNG_EAGAIN && conn->buffered) ==> HC_RD_INTO_FREE(conn)
 /* ---- RAW / FULL: the next min(available, wanted) buffered bytes, in order, each exactly once */
 __CPROVER_ensures(conn->rd_get == OLD(conn->rd_get) + HC_C && conn->rd_put == OLD(conn->rd_put))
 __CPROVER_ensures(aio->a_count == OLD(aio->a_count) + HC_C)
+#ifndef HC_NO_CONTENT
 __CPROVER_ensures((g_k < HC_C) ==> (*U_LOC(g_k) == g_b))
+#endif
 /* the vector is advanced by the same count: entries used up are dropped in order, the first survivor loses its consumed front, later ones unchanged */
 __CPROVER_ensures(aio->a_nio == U_NIO - U_DROP(HC_C))
 __CPROVER_ensures((g_n == U_DROP(HC_C) && g_n < 3 && aio->a_nio >= 1) ==> (aio->a_iov[0].iov_len == OLD(aio->a_iov[g_n & 3u].iov_len) - (HC_C - U_PJ(g_n)) && (uint8_t *) aio->a_iov[0].iov_buf == (uint8_t *) OLD(aio->a_iov[g_n & 3u].iov_buf) + (HC_C - U_PJ(g_n))))
